@@ -12,6 +12,8 @@ import (
 	"github.com/go-fed/activity/streams/vocab"
 	"net/http"
 	"net/url"
+	"reflect"
+	"sort"
 	"strings"
 	"time"
 )
@@ -581,6 +583,41 @@ func unprefixedMemberName(k string) string {
 		return k[i+1:]
 	}
 	return k
+}
+
+// sameDocument returns true if two values as decoded from JSON are the same
+// ActivityStreams document: equal, but for the order of the vocabularies
+// their '@context' lists.
+func sameDocument(a, b map[string]interface{}) bool {
+	contextOf := func(m map[string]interface{}) []string {
+		var l []interface{}
+		switch c := m["@context"].(type) {
+		case []interface{}:
+			l = c
+		case nil:
+		default:
+			l = []interface{}{c}
+		}
+		out := make([]string, 0, len(l))
+		for _, e := range l {
+			j, _ := json.Marshal(e)
+			out = append(out, string(j))
+		}
+		sort.Strings(out)
+		return out
+	}
+	if !reflect.DeepEqual(contextOf(a), contextOf(b)) || len(a) != len(b) {
+		return false
+	}
+	for k, v := range a {
+		if k == "@context" {
+			continue
+		}
+		if w, ok := b[k]; !ok || !reflect.DeepEqual(v, w) {
+			return false
+		}
+	}
+	return true
 }
 
 // mustHaveActivityOriginMatchObjects ensures that the Host in the activity id
